@@ -67,7 +67,10 @@ def r18_1(ctx):
                 # tolerated only for a lookup that follows a put on every path
                 wt = ctx.role('write_trait')
                 puts = q.edges(lambda ev: ev['k'] == 'traitcall' and ev['trait'] == wt and ctx.insert_methods().get(ev['method']) == 'put')
-                bad = [e for (e, x) in esc if q.must_precede(puts, [e])]
+                bad = []
+                for (_e0, x) in esc:
+                    owners = [e for e in rec['edges'] if sites.result_value(q.E[e][2]) == q.E[x][2]['val']]
+                    bad += [e for e in owners if q.must_precede(puts, [e])]
                 if bad:
                     ok = False
                     detail = 'an error of a write-side lookup is discarded and success reported'
